@@ -233,6 +233,41 @@ class C16(CheckBase):
                 if ops[i][0] in ("render", "names", "use", "ctype", "load"):
                     faults[str(i)] = {"kind": ch.pick(["eio", "eio", "enoent"]),
                                       "nth": 1 + ch.choose(2)}
+        # another process rewrites an object's file *while* a use of that
+        # object is under way (just before its nth file-system call)
+        def insert_op(pos, op):
+            ops.insert(pos, op)
+            moved = {(str(int(key) + 1) if int(key) >= pos else key): val
+                     for key, val in faults.items()}
+            faults.clear()
+            faults.update(moved)
+
+        if ch.coin(0.3):
+            for _ in range(1 + ch.choose(2)):
+                i = ch.choose(len(ops))
+                if ops[i][0] in ("render", "names", "use", "ctype") and \
+                        str(i) not in faults:
+                    o = objects[ops[i][1]]
+                    if o["path"] == caller:
+                        continue
+                    if ch.coin(0.6):
+                        # the use has something to reload
+                        insert_op(i, ch.pick([
+                            ["touch", o["path"], 1.0],
+                            ["write", o["path"],
+                             newv(o["path"], allow_broken=False), 1.0,
+                             "atomic"]]))
+                        i += 1
+                    faults[str(i)] = {
+                        "kind": "midwrite", "nth": 1 + ch.choose(5),
+                        "v": newv(o["path"], allow_broken=ch.coin(0.3)),
+                        "dt": ch.weighted([(5, 1.0), (2, 0.001), (1, 0.0),
+                                           (1, -5.0)])}
+                    if ch.coin(0.7):
+                        # ... and the object is used again afterwards
+                        insert_op(min(i + 1 + ch.choose(2), len(ops)),
+                                  [ch.pick(["render", "names", "ctype"]),
+                                   ops[i][1]])
         pkg_path = ch.coin(0.3)
         return {"dirs": dirs, "search_path": search, "pkg_path": pkg_path,
                 "default_extension": default_ext, "auto_reload": auto,
@@ -285,6 +320,7 @@ class C16(CheckBase):
         self.quiesce()
         log = EventLog()
         world = World(log, plan={}, tag="c16")
+        world.read_events = True
         world.activate()
         try:
             return self._run(case, world, log)
@@ -655,7 +691,25 @@ class C16(CheckBase):
                             f"{spec!r} rendered {str(got2[:2])[:200]}, the "
                             f"package's file renders {str(want[:2])[:200]}"))
                 continue
-            self._arm(world, server, f)
+            mid = None
+            if f is not None and f["kind"] == "midwrite":
+                ob = objs[op[1]] if k in ("render", "names", "ctype",
+                                          "use") else None
+                cur = fsm.get(ob.path) if ob is not None else None
+                if ob is not None and not ob.tainted and not ob.children \
+                        and ob.path != caller_path and \
+                        not (cur is not None and cur[0].get("callee")):
+                    mid = {"fired": False, "before": cur}
+
+                    def _act(ob=ob, f=f, mid=mid):
+                        mid["fired"] = True
+                        dwrite(ob.path, f["v"], f["dt"])
+                    world.armed[server.name] = {
+                        "kind": "midwrite", "nth": f["nth"], "kinds": None,
+                        "action": _act}
+                f = None
+            else:
+                self._arm(world, server, f)
             with world.as_proc(server):
                 if k in ("render", "names", "ctype", "use"):
                     ob = objs[op[1]]
@@ -679,7 +733,37 @@ class C16(CheckBase):
                         got = outcome(lambda: c.render(t=t, x="X<1>"))
                         what, arg = "use", op[2]
                     faulted = sum(world.fired.values()) > fired_before
-                    if tainted_use(i, op, ob, got, what, arg, faulted):
+                    if mid is not None and mid["fired"]:
+                        # The file was rewritten while this use was under
+                        # way: the use may serve the version it already
+                        # held, the one before or the one after the write.
+                        # What matters is afterwards: the object may have
+                        # recorded the old mtime (with either body) or have
+                        # looked only after the write - it cannot hold the
+                        # new mtime together with the old body.
+                        v0 = mid["before"]
+                        cands = []
+                        for v in ([ob.version] if ob.version else []) + \
+                                ([v0[0]] if v0 else []) + [fsm[ob.path][0]]:
+                            if v not in cands:
+                                cands.append(v)
+                        wants = []
+                        for v in cands:
+                            if broken(v, ob.fmt):
+                                wants.append(["exc", "TemplateError"])
+                            else:
+                                wants.append(self.ref_render(
+                                    world, v, None, what, arg, ob.fmt))
+                        if v0 is None:
+                            wants.append(["exc", "OSError"])
+                        check(i, op, got, wants, False)
+                        ob.taint_mtimes = {0, ob.seen,
+                                           v0[1] / NS if v0 else 0}
+                        ob.taint_versions = cands
+                        ob.tainted = True
+                        ob.count_unknown = True
+                        cover.add("midwrite")
+                    elif tainted_use(i, op, ob, got, what, arg, faulted):
                         pass
                     else:
                         wants = expected_for(ob, what, arg)
@@ -915,7 +999,10 @@ class C16(CheckBase):
                 "use macro m from another template, content type, "
                 "loader.load(name) with plain / padded / extension-less / "
                 "dir-qualified / absolute / missing names, a caller pulling "
-                "a template in with load:. Clock steps per write in {0, "
+                "a template in with load:; in 30% of histories another "
+                "process replaces an object's file just before the n-th "
+                "file-system call (stat, open, read, close) of a use of "
+                "that object. Clock steps per write in {0, "
                 "1ms, 1s, 1h, 400d, -1ms, -5s}. A history is non-trivial if "
                 "at least one reload was required by the mtime rule or a "
                 "loader resolution succeeded; distinct by hash of (ops, "
@@ -934,7 +1021,8 @@ class C16(CheckBase):
                 "stub": ["the clock: every mtime is stamped with os.utime "
                          "from a simulated clock", "read/stat faults (EIO, "
                          "ENOENT) injected at the os.path.getmtime / open "
-                         "seam", "the deployer"]},
+                         "seam", "the deployer (between operations, and inside "
+                         "one at a chosen file-system call)"]},
             "assumptions": [
                 "a rewrite that leaves the mtime unchanged is undetectable "
                 "by design: either version is accepted until the mtime "
